@@ -164,7 +164,7 @@ def real_run(case):
             else:
                 raise AssertionError(kind)
             outs.append(None if touched is None else "input-modified: " + touched)
-        except (ValueError, IndexError, KeyError) as e:
+        except (ValueError, IndexError, KeyError, TypeError) as e:
             outs.append(type(e).__name__)
         except Exception as e:  # noqa: BLE001
             outs.append("other:" + type(e).__name__)
